@@ -15,6 +15,8 @@ HARNESS = os.path.join(ROOT, "harness")
 REPO = os.environ.get("VERIF_REPO", "/repo")
 TLA_CP = "/opt/veriftools/tla/tla2tools.jar:/opt/veriftools/tla/CommunityModules-deps.jar"
 NCPU = os.cpu_count() or 8
+# experiments on scratch worktrees write their evidence elsewhere, never over the evidence of /repo
+EVID = os.environ.get("VERIF_EVIDENCE_DIR") if REPO != "/repo" and os.environ.get("VERIF_EVIDENCE_DIR") else os.path.join(ROOT, "evidence")
 
 
 class Infra(Exception):
@@ -32,15 +34,25 @@ def goenv():
 
 
 def build_harness(work):
-    """Builds vh against the current working tree of /repo (tag verif)."""
+    """Builds vh against the current working tree of /repo (tag verif).
+    VERIF_REPO (experiments on scratch worktrees only, e.g. seeded changes) redirects the module replacement
+    through a private copy of go.mod; the registered checks always build against /repo."""
     t0 = time.time()
-    shutil.copy(os.path.join(REPO, "go.sum"), os.path.join(HARNESS, "go.sum"))
     out = os.path.join(work, "vh")
-    p = subprocess.run(["go", "build", "-tags", "verif", "-o", out, "./cmd/vh"], cwd=HARNESS, env=goenv(),
+    cmd = ["go", "build", "-tags", "verif", "-o", out]
+    if REPO == "/repo":
+        shutil.copy(os.path.join(REPO, "go.sum"), os.path.join(HARNESS, "go.sum"))
+    else:
+        mod = open(os.path.join(HARNESS, "go.mod")).read().replace("canine-chain/v4 => /repo", "canine-chain/v4 => " + REPO)
+        with open(os.path.join(work, "vh.mod"), "w") as fh:
+            fh.write(mod)
+        shutil.copy(os.path.join(REPO, "go.sum"), os.path.join(work, "vh.sum"))
+        cmd += ["-modfile", os.path.join(work, "vh.mod")]
+    p = subprocess.run(cmd + ["./cmd/vh"], cwd=HARNESS, env=goenv(),
                        stdout=subprocess.PIPE, stderr=subprocess.STDOUT, text=True)
     if p.returncode != 0:
         raise Infra("harness build failed (the repository tree may not compile):\n" + p.stdout[-4000:])
-    log(f"[build] vh built in {time.time()-t0:.1f}s")
+    log(f"[build] vh built in {time.time()-t0:.1f}s" + ("" if REPO == "/repo" else f" against {REPO}"))
     return out
 
 
@@ -224,16 +236,16 @@ def parallel(fn, items, nworkers):
 
 
 def write_evidence(pid, tier, seed, level, coverage, wall, violations, assumptions):
-    os.makedirs(os.path.join(ROOT, "evidence"), exist_ok=True)
+    os.makedirs(EVID, exist_ok=True)
     ev = {"property_id": pid, "tier": tier, "seed": seed, "level": level, "coverage": coverage,
           "assumptions": assumptions, "wall_s": round(wall, 1), "violations": violations}
-    with open(os.path.join(ROOT, "evidence", pid + ".json"), "w") as fh:
+    with open(os.path.join(EVID, pid + ".json"), "w") as fh:
         json.dump(ev, fh, indent=1, sort_keys=True)
         fh.write("\n")
 
 
 def write_replay(pid, formula, family, vh_cfg, steps, extra=None):
-    d = os.path.join(ROOT, "evidence", "replays")
+    d = os.path.join(EVID, "replays")
     os.makedirs(d, exist_ok=True)
     body = {"property": pid, "formula": formula, "family": family, "vh_cfg": vh_cfg, "steps": steps}
     body.update(extra or {})
